@@ -177,7 +177,11 @@ class Program:
     module name emulates an edited program (in-process) or, after clear_process_state(), a fresh
     process."""
 
+    _serial = [0]
+
     def __init__(self, name, package=""):
+        Program._serial[0] += 1
+        self.tag = "%s#%d" % (name, Program._serial[0])  # linecache namespace of this instance
         self.name = name
         self.mod = types.ModuleType(name)
         self.mod.__package__ = package
@@ -190,7 +194,7 @@ class Program:
 
     def exec(self, text):
         self.version += 1
-        fname = "<vp:%s:%d>" % (self.name, self.version)
+        fname = "<vp:%s:%d>" % (self.tag, self.version)
         linecache.cache[fname] = (len(text), None, text.splitlines(True), fname)
         code = compile(text, fname, "exec")
         exec(code, self.mod.__dict__)
@@ -213,7 +217,7 @@ class Program:
 
     def close(self):
         sys.modules.pop(self.name, None)
-        for k in [k for k in linecache.cache if k.startswith("<vp:%s:" % self.name)]:
+        for k in [k for k in linecache.cache if k.startswith("<vp:%s:" % self.tag)]:
             del linecache.cache[k]
 
 
